@@ -77,6 +77,9 @@ class Collector:
         if hyp.TIMEOUTS[0]:
             self.skips["case_watchdog_timeout"] += hyp.TIMEOUTS[0]
             hyp.TIMEOUTS[0] = 0
+        if hyp.TIMEOUT_WHERE:
+            self.extra["watchdog_where"] = list(hyp.TIMEOUT_WHERE[:5])
+            del hyp.TIMEOUT_WHERE[:]
         return {
             "evaluations": self.evaluations,
             "nontrivial": sorted(self.nontrivial),
